@@ -161,5 +161,5 @@ def run(prop, args):
     def shrink(b, w):
         small = C.shrink(w, lambda c: any(p == b[1] for p, _ in _case(c)["viol"]))
         d = [d for p, d in _case(small)["viol"] if p == b[1]]
-        return small, (d[0] if d else "")
+        return (small, d[0]) if d else None      # None: not reproducible in isolation
     return rep.finish(shrink_fn=shrink)
